@@ -366,6 +366,58 @@ def clause6_shutdown(ctx, P, cg):
     ctx.ob("C07.6 R-ORDER", rio, "loop-destroyed-last", bad is None, "the event loop is not destroyed after the servers have been stopped")
 
 
+def clause7_linked(ctx, P, cg, own):
+    """an object whose list node was linked on a path is not released on that path while still linked"""
+    LINK, UNLINK = ("list_add_tail", "list_add"), ("list_del",)
+
+    def node_of(f, o):
+        t = P.term(f, o)
+        if t[0] == "field" and t[2].startswith("struct.") and t[1][0] in ("param", "phi", "call", "load", "container_of"):
+            return (t[1], t[2], t[3])
+        return None
+    # functions that free a parameter without unlinking it themselves
+    releases = {}
+    for g in P.own_functions():
+        for k, prm in enumerate(g.params):
+            pt = ("param", k, prm["name"])
+            frees = any(P.term(g, c.a[0]) == pt for c in g.calls(("cjet_free", "free")))
+            unl = any((node_of(g, c.a[0]) or (None,))[0] == pt for c in g.calls(UNLINK))
+            if frees and not unl:
+                releases[(g.name, k)] = True
+    nlink = 0
+    for f in P.own_functions():
+        if not f.calls(LINK):
+            continue
+        bad = None
+        for v in own.views(f):
+            linked = {}
+            for k, i in v.calls():
+                cn = P.srcname_of(i.callee) if i.callee else None
+                if cn in LINK:
+                    nd = node_of(f, i.a[0])
+                    if nd:
+                        linked[nd[0]] = (nd, i)
+                        nlink += 1
+                elif cn in UNLINK:
+                    nd = node_of(f, i.a[0])
+                    if nd:
+                        linked.pop(nd[0], None)
+                else:
+                    for t in cg.targets(f, i):
+                        for ak, a in enumerate(i.a):
+                            if (t, ak) in releases or (cn in ("cjet_free", "free") and ak == 0):
+                                at = P.term(f, a)
+                                if at in linked:
+                                    bad = (v, linked[at][0], i)
+        ctx.ob("C07.7 R-TYPESTATE", f, "no-release-while-linked", bad is None,
+               "%s is released by %s at %s while its node %s.%s is still linked into a list on this path: the list keeps a pointer to "
+               "freed memory" % (fmt_term(bad[1][0]), P.srcname_of(bad[2].callee or "?"), bad[2].loc, bad[1][1], bad[1][2]) if bad else "",
+               witness=bad[0].witness() if bad else None)
+    nsites = sum(len(f.calls(LINK)) for f in P.own_functions())
+    if nsites < 3 or nlink < 3:
+        raise AnalysisBroken("list linking sites: %d static, %d on paths" % (nsites, nlink))
+
+
 def run(ctx):
     for cfg in ctx.configs(["default"] if ctx.tier == "quick" else None):
         P, cg = cfg.P, cfg.cg
@@ -377,3 +429,4 @@ def run(ctx):
         clause4_self(ctx, P, cg)
         clause5_cap(ctx, P)
         clause6_shutdown(ctx, P, cg)
+        clause7_linked(ctx, P, cg, own)
